@@ -3,7 +3,7 @@ CONSTANTS
     EpochOrderStrict = FALSE
     CacheSound = FALSE
     MaxAlter = 1
-    TamperFields = {"prev", "epoch", "avk", "params", "nextAvk", "nextParams", "sig"}
+    TamperFields = {"resign", "prev", "epoch", "avk", "params", "nextAvk", "nextParams", "sig"}
     ForgeEpochs = {1, 2, 3, 4}
     Forge2Pars = {"p"}
     ForgeKeys = {"A", "H4"}
